@@ -300,6 +300,8 @@ def run_base_capa(
     # Used to get the final set of anomalies after the loop.
     opt_anomaly_starts = np.repeat(np.nan, n)
     starts = np.array([], dtype=int)
+    # Starts found to have too low saving in the last min_segment_length - 1 steps.
+    low_saving_starts = []
 
     # Only point anomalies fit in the first min_segment_length - 1 samples.
     for t in range(min(min_segment_length - 1, n)):
@@ -340,7 +342,17 @@ def run_base_capa(
 
         # Pruning the admissible starts
         penalty_sum = collective_alpha + collective_betas.sum()
-        saving_too_low = candidate_savings + penalty_sum < opt_savings[t + 1]
+        # A start with too low saving at t may still be optimal until a new anomaly of
+        # min_segment_length samples fits in after t, so its removal is delayed.
+        low_saving_starts.append(
+            starts[candidate_savings + penalty_sum < opt_savings[t + 1]]
+        )
+        delayed = (
+            low_saving_starts.pop(0)
+            if len(low_saving_starts) >= min_segment_length
+            else []
+        )
+        saving_too_low = np.isin(starts, delayed)
         too_long_segment = starts < t - max_segment_length + 2
         prune = saving_too_low | too_long_segment
         starts = starts[~prune]
